@@ -249,6 +249,17 @@ def r1_coverage(ctx):
         return
     lp = sl[0]
     it = norm(lp.iter)
+    if isinstance(lp.iter, (ast.GeneratorExp, ast.ListComp, ast.Call)) and \
+            it not in ("FP_DEFAULT.keys()", "sorted(FP_DEFAULT)",
+                       "sorted(FP_DEFAULT.keys())", "list(FP_DEFAULT)",
+                       "list(FP_DEFAULT.keys())") and not any(
+                isinstance(c_, ast.Call) and call_name(c_) in (
+                    "set", "frozenset") for c_ in ast.walk(lp.iter)) and \
+            not any(isinstance(c_, (ast.Set, ast.SetComp))
+                    for c_ in ast.walk(lp.iter)):
+        raise Undecided("_hash iterates over values derived from FP_DEFAULT "
+                        f"(`{it[:60]}`): which value enters per setting is "
+                        "not understood")
     ctx.check(it in ("FP_DEFAULT", "FP_DEFAULT.keys()", "sorted(FP_DEFAULT)",
                      "sorted(FP_DEFAULT.keys())", "list(FP_DEFAULT)",
                      "list(FP_DEFAULT.keys())"), lp,
